@@ -17,7 +17,7 @@ class Boom(Exception):
 def execute(case):
     import anyio
     from anyio import CancelScope, Event, create_task_group, get_cancelled_exc_class, sleep
-    from asphalt.core import Context, current_context, get_resources
+    from asphalt.core import Component, Context, current_context, get_resources, start_background_task_factory, start_component
 
     prog, sched = case["prog"], list(case["hist"])
     events = []
@@ -136,7 +136,14 @@ def execute(case):
                     st["owner"] = ctx
                     ctx.add_resource(RT[0]())
                     log(ev="reg", id=0)
-                    st["factory"] = await ctx.start_background_task_factory(exception_handler=handler if has_handler else None)
+                    if case.get("seed", 0) % 2:
+                        # the factory is started by a component's start(), i.e. through the ComponentContext
+                        class FactoryComponent(Component):
+                            async def start(self_inner):
+                                st["factory"] = await start_background_task_factory(exception_handler=handler if has_handler else None)
+                        await start_component(FactoryComponent, timeout=None)
+                    else:
+                        st["factory"] = await ctx.start_background_task_factory(exception_handler=handler if has_handler else None)
                     log(ev="factory.start")
                     ctx.add_resource(RT[1]())
                     log(ev="reg", id=1)
